@@ -162,6 +162,7 @@ type VC struct {
 	pcParent map[string][]string // pc -> path conditions it implies
 	pcMemo   map[string]map[string]bool
 	pcSplits map[string][]T
+	freshRefs []T
 }
 
 // splitsFor finds a case split for pc: the disjuncts of the nearest merged path condition it implies.
@@ -302,7 +303,7 @@ func (vc *VC) fresh(hint, sort string) T {
 
 // define introduces a name for a term (keeps scripts linear in size).
 func (vc *VC) define(hint, sort string, t T) T {
-	if len(t) < 48 || vc.inQuant > 0 {
+	if len(t) < 48 || vc.inQuant > 0 || !strings.ContainsAny(t, " (") {
 		return t
 	}
 	n := vc.fresh(hint, sort)
